@@ -43,7 +43,7 @@ _PROG = {}
 
 
 # third family: results holding NaN and +-inf as ordinary (non-missing) cells (the CSV reader delivers them for cells "nan" / "inf")
-NF_PRODUCERS = [("pn", False, "f_nan"), ("pm", False, "f_nan_miss"), ("pg", False, "f_full")]
+NF_PRODUCERS = [("pn", False, "f_nan"), ("pm", False, "f_nan_miss"), ("pg", False, "f_full"), ("zn", True, "z_nan_miss")]
 NC_PRODUCERS = [("p2", True, "z_2d"), ("q2", False, "f_2d"), ("r2", False, "f_2d_miss"), ("i2", False, "i_2d"), ("y2", True, "z_2d_full"),
                 ("u2", False, "u_2d"), ("t3", False, "f_3d")]  # unsigned elements: what the NetCDF reader delivers for DataType = "Positive Integer"
 
@@ -53,6 +53,7 @@ def _table():
         "f_miss": lambda: numpy.ma.MaskedArray([-1.0, 0.5, 2.0, 5.0], mask=[False, True, False, False]),
         "f_full": lambda: numpy.ma.MaskedArray([1.5, -2.0, 0.0, 0.25]),
         "f_nan": lambda: numpy.ma.MaskedArray([float("nan"), 1.0, float("inf"), 0.5]),
+        "z_nan_miss": lambda: numpy.ma.MaskedArray([0.5, float("nan"), -1.0, 0.25], mask=[False, False, False, True]),  # a fuzzy layer of a plug-in
         "f_nan_miss": lambda: numpy.ma.MaskedArray([2.0, float("-inf"), float("nan"), 0.0], mask=[False, False, False, True]),
         "i_full": lambda: numpy.ma.MaskedArray(numpy.array([2, -1, 0, 5], dtype=numpy.int64)),
         "z_miss": lambda: numpy.ma.MaskedArray([-1.0, 0.25, 1.0, -0.5], mask=[False, False, True, False]),
